@@ -490,6 +490,11 @@ func (lb *LoadBalancer) AddBackend(backendCfg config.BackendConfig) error {
 
 	proxy.Transport = transport
 
+	// Forward every chunk as soon as it arrives: with the default (0) only responses of
+	// unknown length or text/event-stream are streamed, and bytes a backend flushes in a
+	// response with a declared Content-Length wait for the end of the response
+	proxy.FlushInterval = -1
+
 	// Create the backend
 	// If weight is not specified or is invalid, default to 1
 	weight := backendCfg.Weight
